@@ -40,6 +40,13 @@ func (*requestCodec) HandleRead(ctx netty.InboundContext, message netty.Message)
 			// TODO: replace request context by the channel context
 			//
 			ctx.HandleRead(request)
+
+			// the next request starts behind this request's body: skip whatever the handler left unread,
+			// otherwise the rest of the body would be parsed as the next request
+			if nil != request.Body {
+				_, _ = io.Copy(io.Discard, request.Body)
+				_ = request.Body.Close()
+			}
 			// Close indicates whether to close the connection after
 			// replying to this request
 			if request.Close {
